@@ -42,6 +42,8 @@ pub fn starts() -> Vec<i64> {
         unix_of(2022, 6, 15, 6, 6, 6), unix_of(2022, 8, 31, 23, 0, 0), unix_of(2022, 10, 30, 1, 30, 0), unix_of(2022, 11, 6, 22, 58, 59), unix_of(2028, 2, 29, 0, 0, 0),
         unix_of(2022, 3, 13, 2, 30, 0), unix_of(2022, 12, 25, 12, 30, 30), unix_of(2022, 9, 30, 23, 59, 59), unix_of(2022, 2, 28, 12, 0, 0), unix_of(2027, 12, 31, 23, 59, 30),
         unix_of(2023, 2, 2, 0, 0, 0), unix_of(2023, 2, 26, 6, 30, 0), unix_of(2024, 2, 10, 12, 0, 1),
+        // around 2100 (not a leap year: 29 February is eight years apart) and a far year
+        unix_of(2096, 2, 29, 0, 0, 30), unix_of(2099, 12, 31, 23, 59, 59), unix_of(2100, 2, 28, 23, 59, 0), unix_of(2400, 2, 28, 12, 0, 0),
     ]
 }
 
@@ -173,7 +175,7 @@ pub fn run(ctx: &Ctx) -> i32 {
     rep.rule = "states = distinct (schedule, pinned clock, last result, live iterator) tuples reached by BFS; transitions = real next() calls under a pinned clock, each compared with the brute-force reference 'earliest whole minute later than max(current minute, previous result) whose month, hour, minute match and whose day matches (dom OR dow when both restricted)'; results must carry zero seconds; a cloned schedule must continue identically".into();
     rep.assumptions = vec![
         "schedules on which 'restricted' is ambiguous between set-based and star-based reading (*/2 or 1-31 in day-of-month, 0-6 in day-of-week) are not in the menu; unsatisfiable schedules are excluded".into(),
-        "years outside 2021-2032 are not reached; the calendar functions the iterator uses are covered over the whole range by C01, C02, C04, C05".into(),
+        "start instants lie in 2021-2028, around 2096-2104 (the eight-year gap between leap days at 2100) and in 2400; the calendar functions the iterator uses are covered over the whole range by C01, C02, C04, C05".into(),
     ];
     let depth: u8 = if ctx.thorough { 4 } else { 3 };
     let t0 = std::time::Instant::now();
